@@ -43,16 +43,17 @@ import (
 )
 
 type c03cParam struct {
-	In      string `json:"in"`      // one, three, three-noorder, paired
-	Out     string `json:"out"`     // file, stdout
-	Guess   bool   `json:"guess"`   // false: --fasta (ReadFastaFromFile), true: format guessed from the content (ReadSequencesFromFile)
-	Filter  bool   `json:"filter"`  // FilterOn(even) between the worker and the writer
-	Batch   int    `json:"batch"`   // --batch-size
-	Workers int    `json:"workers"` // --max-cpu
-	Mode    string `json:"mode"`
-	Bound   int    `json:"bound"`
-	Policy  int    `json:"policy"`
-	Choices []int  `json:"choices,omitempty"`
+	In        string   `json:"in"`      // one, three, three-noorder, paired
+	Out       string   `json:"out"`     // file, stdout
+	Guess     bool     `json:"guess"`   // false: --fasta (ReadFastaFromFile), true: format guessed from the content (ReadSequencesFromFile)
+	Filter    bool     `json:"filter"`  // FilterOn(even) between the worker and the writer
+	Batch     int      `json:"batch"`   // --batch-size
+	Workers   int      `json:"workers"` // --max-cpu
+	Mode      string   `json:"mode"`
+	Bound     int      `json:"bound"`
+	Policy    int      `json:"policy"`
+	Choices   []int    `json:"choices,omitempty"`
+	Conflicts []string `json:"conflicts,omitempty"` // racy-access sites that were scheduling points (replay)
 }
 
 var c03cDir string
@@ -332,7 +333,7 @@ func TestVerifC03C(t *testing.T) {
 		if err := json.Unmarshal(rc, &p); err != nil {
 			t.Fatal(err)
 		}
-		x := vsched.RunOncePolicy(p.Policy, p.Choices, 40000, nil, c03cReset(p), func(x *vsched.Exec) { x.Obs = c03cBody(p) })
+		x := vsched.RunOncePolicy(p.Policy, p.Choices, 40000, vsched.ConflictSet(p.Conflicts), c03cReset(p), func(x *vsched.Exec) { x.Obs = c03cBody(p) })
 		msg := check(p)(x)
 		r.Eval(1)
 		if msg != "" {
@@ -493,6 +494,7 @@ func TestVerifC03C(t *testing.T) {
 			seen[key] = true
 			q := p
 			q.Choices = v.Choices
+			q.Conflicts = v.Conflicts
 			r.Violate(key, fmt.Sprintf("CLIReadBioSequences(%s) -> worker -> filter=%v -> CLIWriteBioSequences(%s) batch=%d workers=%d policy=%d: %s [schedule=%v]",
 				p.In, p.Filter, p.Out, p.Batch, p.Workers, p.Policy, parts[1], v.Choices), q)
 		}
